@@ -33,6 +33,12 @@ def run(ctx, monitors, n_docs, n_ra=0.3, n_boundary=0):
     for _ in range(n_boundary):
         docs.append(textgen.boundary_year_doc(rng))
     cases = []
+    rx_cases, rx_seen = [], set()
+    import json, os
+    try:
+        slots = json.load(open(os.path.join(core.COQ, "Gen", "gen_meta.json"))).get("meta_group_names", {})
+    except Exception:  # noqa
+        slots = {}
     for d in docs:
         run = P.run_document(d, False)
         if run["out"][0] != "ok":
@@ -68,8 +74,17 @@ def run(ctx, monitors, n_docs, n_ra=0.3, n_boundary=0):
                 ctx.violation(shape, f"{name}: {msg}", dict(stream="find", text=d))
         inp, exp = P.case_for(d, run, False)
         cases.append((inp, exp, dict(stream="find", text=d)))
+        if slots and len(rx_cases) < 1500:
+            for c_ in P.regex_cases(run["rec"], slots):
+                if c_[0] not in rx_seen and len(c_[0]) < 4000:
+                    rx_seen.add(c_[0])
+                    rx_cases.append(c_)
         if run_ra is not None and run_ra["out"][0] == "ok":
             inp, exp = P.case_for(d, run_ra, True)
             cases.append((inp, exp, dict(stream="find", text=d, remove_ambiguous=True)))
     ctx.streams.append("find")
     core.corr_run(ctx, "pipe", P.PRE, "run_pipe", "pipe_eqb", cases, shard=25, ty=P.TY)
+    # the metadata searches recomputed by the engine model on the regenerated pattern ASTs
+    ctx.streams.append("regex-oracle")
+    ctx.count("regex-oracle: recorded metadata searches recomputed by the engine model", len(rx_cases))
+    core.corr_run(ctx, "rxo", P.PRE_RX, "rx_run", "rx_eqb", rx_cases, shard=60, ty=P.RX_TY)
